@@ -489,7 +489,10 @@ Crash ==
   /\ crashes < MaxCrash /\ pc # "failed" /\ ~(pc = "idle" /\ crashes > 0)
   /\ pc' = "o_hdr" /\ ctx' = "open" /\ cur' = NoLtx /\ todo' = <<>> /\ tset' = {} /\ rmq' = <<>> /\ vj' = NoJr
   /\ vpos' = Pos0 /\ vtab' = <<>> /\ vknown' = FALSE /\ sel' = NoLtx
-  /\ crashes' = crashes + 1 /\ ks' = Append(ks, k) /\ k' = 0 /\ hist' = Append(hist, "CRASH")
+  \* the checkpoint copies pages in any order: which ones were done is part of the crash point (the
+  \* recovered states of two orders coincide, and every crash point must be emitted)
+  /\ crashes' = crashes + 1 /\ k' = 0 /\ hist' = Append(hist, "CRASH")
+  /\ ks' = Append(ks, [k |-> k, done |-> IF pc = "c_page" THEN (DOMAIN cur.pages) \ tset ELSE {}])
   /\ UNCHANGED <<dur, scn, bef, aft, acked>>
 
 Next == \/ SCreate \/ SRename \/ SRemove
